@@ -40,21 +40,37 @@ from ..lib.common import Ctx, MachineryError, repo_python_path
 MANIFEST = {
     "engine": "E12-PState",
     "technique": "Lean 4 invariant proof over a model of all state that outlives a call (histories of any length, any number of "
-                 "parsers) + facts regenerated from the source by AST + three-way differential run (reused parser / fresh parser in a "
-                 "fresh context / model) on real parsers, including the state of every carrier after every step",
-    "text": "Theorems in lean/Jap/Props/C09.lean prove that for every history of parse_args/parse_object/parse_string/parse_env/"
-            "get_defaults/dump/validate/instantiate_classes/help/print_config operations (successful, failing, exiting) on any number of "
-            "parsers, the answer of a further operation equals its answer on freshly built parsers: every carrier of persistent state is "
-            "either written before it is read within the operation or restored by every operation (invariant, proved preserved). The "
-            "model consults facts about the source (finally-pop of print_config in parse_args, token resets in finally, write-before-"
-            "read placement of the three unreset context variables, no write to the action's own sub_add_kwargs, ...) which are "
-            "regenerated from /repo on every run; `decide` obligations connect them to the theorem's assumptions, and every write to a "
-            "parser/action attribute in parse-time code must be a known carrier. Real parsers are run reused vs fresh vs model, "
-            "comparing answers and the observed state of every carrier after every step.",
-    "level_note": "Trusted: Lean kernel; axioms propext/Quot.sound/Classical.choice only; the AST extractor (name-based call graph, the "
-                  "table of known writes); the classification of argv elements into the model's token kinds; the harness. Outside: usage "
-                  "text on stderr and the lazily added --print_shtab entry of help texts; caches inside argparse/PyYAML/inspect; "
-                  "stdin ('-' arguments); --print_shtab itself; argcomplete; logging configuration; jsonnet ext_vars.",
+                 "parsers) + a generic value-carrying engine for bracketed code (any nesting of context managers from the regenerated "
+                 "bracket table, writes, reads, branches, exceptions raised at ANY point) + facts and write tables regenerated from the "
+                 "source by AST (every module: parser/action attribute writes, module globals, class attributes, caching decorators) + "
+                 "differential runs on real parsers: reused parser vs fresh parser in a fresh context vs fresh parser in a fresh PROCESS vs "
+                 "the model, in the same context / a fresh context per call / a new thread per call",
+    "text": "Theorems in lean/Jap/Props/C09.lean prove (1) for the transcription of every public operation (Core/PState): for every history "
+            "of parse_args/parse_object/parse_string/parse_env/get_defaults/dump/validate/instantiate_classes/help/print_config operations "
+            "(successful, failing, exiting) on any number of parsers, the answer of a further operation equals its answer on freshly built "
+            "parsers (invariant: every carrier is written before it is read within the operation or restored by every operation); (2) for "
+            "ANY code over value-carrying locations built from writes, reads, branches on the value held, try/except, try/finally and "
+            "`with` brackets (Core/PStateCtx): if it obeys a discipline decidable on the syntax, then after any history of such operations, "
+            "with exceptions raised before/after any of their steps, every restored location holds its default and the answer (raised? + "
+            "all values read) equals the answer on fresh state; the bracket skeletons of the public operations are built over the "
+            "REGENERATED bracket table (Gen/Brackets: place of each reset) and shown disciplined by kernel evaluation. The facts the first "
+            "model consults, the list of context variables, every write to a parser/action/group attribute reachable from a public entry "
+            "point (every module, every receiver name) and every write to process-level state (names declared global, module-level "
+            "containers, class attributes, caching decorators; every function) are regenerated from /repo on every run and must be "
+            "classified (carrier written where the model expects / restored / memo of a constant / declaration-time / fresh object): an "
+            "unclassified write is a broken tie. Real parsers are run reused vs fresh vs model (22 kinds of operation, answers and the state "
+            "of every carrier after every step) and in wide histories (every keyword of every method, parse_known_args, get_default, save, "
+            "strip_unknown, merge_config, print_help, changing os.environ and default-config-file content, three ways of reusing a parser, a "
+            "fresh parser asked in the context the history left, a fresh parser in a fresh process as reference, object graph / context "
+            "variables / module globals / class attributes / cwd compared with a pristine baseline).",
+    "level_note": "Trusted: Lean kernel; axioms propext/Quot.sound/Classical.choice only; the AST extractors (name-based call graph, the "
+                  "tables of known writes); the classification of argv elements into the model's token kinds; that the bracket skeletons "
+                  "of Lemmas/PStateCtxOps.lean name the context managers each operation really enters (tied to the source only through the "
+                  "regenerated bracket table and the list of context variables, not by a run-time trace); the harness. Outside: usage text on "
+                  "stderr and the lazily added --print_shtab entry of help texts; caches inside argparse/PyYAML/inspect; stdin ('-' "
+                  "arguments); --print_shtab itself; argcomplete; logging configuration; jsonnet ext_vars; `action.default` rewritten by the "
+                  "help formatter is put back by straight-line code, not in a finally (theorem ctx_help_default_not_fault_tolerant; no "
+                  "real input that raises in between is known).",
 }
 
 MODNAME = "c09_components"
@@ -293,6 +309,30 @@ def apply_edit(cfg, edit):
     return cfg
 
 
+DEFAULTS_FILE = {"B": "b_defaults.yaml"}
+DEFAULTS_FILE_ORIG = {"B": "a: 7\n"}
+
+
+@contextlib.contextmanager
+def original_defaults_files():
+    saved = {}
+    for k, fn in DEFAULTS_FILE.items():
+        path = os.path.join(env_dir(), fn)
+        with open(path) as f:
+            saved[path] = f.read()
+        if saved[path] != DEFAULTS_FILE_ORIG[k]:
+            with open(path, "w") as f:
+                f.write(DEFAULTS_FILE_ORIG[k])
+        else:
+            del saved[path]
+    try:
+        yield
+    finally:
+        for path, content in saved.items():
+            with open(path, "w") as f:
+                f.write(content)
+
+
 class Helper:
     """configurations handed to dump/validate/instantiate are made by a separate fresh parser in a fresh context, so
     that the operation under test is exactly one call on the parser under test"""
@@ -304,7 +344,8 @@ class Helper:
         key = (kind, json.dumps(src, sort_keys=True))
         if key not in self.cache:
             def make():
-                with quiet():
+                # in a canonical environment: no APP_/TOOL_ variables, the default config file with its original content
+                with quiet(), patched_environ(None), original_defaults_files():
                     return build_parser(kind).parse_object(copy.deepcopy(src))
             self.cache[key] = contextvars.Context().run(make)
         return self.cache[key].clone()
@@ -318,31 +359,58 @@ def run_op(parser, kind, op):
     from jsonargparse import ArgumentError
 
     o = op["op"]
-    cfg = None
-    if o in ("dump", "validate", "instantiate"):
+    cfg = cfg2 = None
+    if o in ("dump", "validate", "instantiate", "save", "strip_unknown", "merge_config"):
         cfg = apply_edit(HELPER.cfg(kind, subst(op["src"])), subst(op.get("edit")))
+    if o == "merge_config":
+        cfg2 = HELPER.cfg(kind, subst(op["src2"]))
+    return run_op_cfg(parser, kind, op, cfg, cfg2)
+
+
+def run_op_cfg(parser, kind, op, cfg, cfg2):
+    from jsonargparse import ArgumentError
+
+    o = op["op"]
     with patched_environ(subst(op.get("environ"))), quiet() as (out, err):
         try:
+            pkw = op.get("pkw", {})
             if o == "parse_args":
-                r = parser.parse_args(subst(op["argv"]))
+                r = parser.parse_args(subst(op["argv"]), **pkw)
+            elif o == "parse_known_args":
+                r = parser.parse_known_args(subst(op["argv"]))
             elif o == "parse_object":
-                r = parser.parse_object(copy.deepcopy(subst(op["obj"])))
+                r = parser.parse_object(copy.deepcopy(subst(op["obj"])), **pkw)
             elif o == "parse_string":
-                r = parser.parse_string(subst(op["text"]))
+                r = parser.parse_string(subst(op["text"]), **pkw)
             elif o == "parse_path":
-                r = parser.parse_path(subst(op["path"]))
+                r = parser.parse_path(subst(op["path"]), **pkw)
             elif o == "parse_env":
-                r = parser.parse_env(subst(op["env"]))
+                r = parser.parse_env(subst(op["env"]), **pkw)
             elif o == "get_defaults":
-                r = parser.get_defaults()
+                r = parser.get_defaults(**pkw)
+            elif o == "get_default":
+                r = parser.get_default(op["dest"])
             elif o == "dump":
                 r = parser.dump(cfg, **op.get("kw", {}))
+            elif o == "save":
+                r = save_and_read(parser, cfg, op.get("kw", {}))
             elif o == "validate":
-                r = parser.validate(cfg)
+                r = parser.validate(cfg, **pkw)
             elif o == "instantiate":
-                r = parser.instantiate_classes(cfg)
+                r = parser.instantiate_classes(cfg, **pkw)
+            elif o == "strip_unknown":
+                r = parser.strip_unknown(cfg)
+            elif o == "merge_config":
+                r = parser.merge_config(cfg, cfg2)
             elif o == "format_help":
                 r = norm_help(parser.format_help())
+            elif o == "print_help":
+                parser.print_help()
+                r = norm_help(out.getvalue())
+                out.seek(0)
+                out.truncate()
+            elif o == "defaults_file":
+                r = None   # the environment changed (write_defaults_file, before both runs); nothing is asked of the parser
             else:
                 raise MachineryError("unknown op " + o)
             obs = {"k": "result", "v": canon(r)}
@@ -364,6 +432,27 @@ def run_op(parser, kind, op):
     elif so:
         obs["out"] = norm_text(so)
     return obs
+
+
+def save_and_read(parser, cfg, kw):
+    """parser.save into an empty directory; the answer is the set of files written and their content"""
+    d = os.path.join(env_dir(), "save_out")
+    shutil.rmtree(d, ignore_errors=True)
+    os.makedirs(d)
+    try:
+        parser.save(cfg, os.path.join(d, "out.yaml"), **kw)
+        out = {}
+        for fn in sorted(os.listdir(d)):
+            with open(os.path.join(d, fn)) as f:
+                out[fn] = f.read()
+        return out
+    finally:
+        shutil.rmtree(d, ignore_errors=True)
+
+
+def write_defaults_file(kind, content):
+    with open(os.path.join(env_dir(), DEFAULTS_FILE[kind]), "w") as f:
+        f.write(content)
 
 
 def run_fresh(kind, op):
@@ -1056,6 +1145,387 @@ def alphabet(kind, small):
     return ops
 
 
+# ------------------------------------------------------------------ wide histories (oracle + probes, outside the model's alphabet)
+# every keyword of every public method, more methods (parse_known_args, get_default, save, strip_unknown, merge_config,
+# print_help), a changing environment (os.environ, content of the default config file), three ways of reusing a parser
+# (same context / a fresh contextvars.Context per call / a new thread per call) and, after every step, a FRESH parser
+# asked in the context the history left behind.
+PA_KW = [{}, {}, {"env": True}, {"env": False}, {"defaults": False}, {"with_meta": False}, {"with_meta": True}, {"env": True, "defaults": False},
+         {"env": False, "with_meta": True}]
+PE_KW = [{}, {"defaults": False}, {"with_meta": True}]
+GD_KW = [{}, {"skip_validation": True}]
+VAL_KW = {"A": [{}, {"skip_none": False}, {"skip_required": True}], "B": [{}, {"skip_none": False}, {"skip_required": True}]}
+INST_KW = [{}, {}, {"instantiate_groups": False}]
+SAVE_KW = [{}, {"format": "json"}, {"skip_none": False}, {"multifile": False}, {"skip_validation": True}, {"overwrite": True}]
+DEST = {"A": ["a", "name", "lst", "model", "trainer.steps", "trainer.opt", "fit.lr", "fit.sched", "test.n", "nosuch", "cfg"],
+        "B": ["a", "flag", "model", "data", "trainer.opt", "trainer.size", "nosuch", "cfg"]}
+ENVIRON_W = {"A": [None, None, {"APP_A": "42"}, {"APP_FIT__LR": "0.9"}, {"APP_NAME": "fromenv", "APP_TEST__N": "6"}, {"APP_LST": "[8]"},
+                   {"APP_MODEL": "Other"}, {"APP_A": "notint"}],
+             "B": [None, None, {"TOOL_A": "42"}, {"TOOL_FLAG": "true"}, {"TOOL_MODEL": "Other"}, {"TOOL_A": "notint"}, {"TOOL_DATA": '{"x": 9}'}]}
+DEFAULTS_CONTENT = {"B": ["a: 7\n", "a: 8\nflag: true\n", "", "model: Other\n", "a: oops\n", "data:\n  y: fromdefaults\n", "trainer:\n  opt:\n    x: 6\n"]}
+UNKNOWN_EDIT = [{"zzz": 1}, {"zzz": {"deep": [1]}}, {"trainer.nokey": 2}, {}]
+WIDE_EXTRA = ["parse_known_args", "get_default", "get_default", "get_defaults", "dump_any", "dump_any", "save", "strip_unknown", "merge_config",
+              "print_help", "defaults_file", "defaults_file", "validate_kw", "instantiate_kw", "parse_env_kw"]
+MODES = ["same", "same", "ctx", "thread"]
+
+
+def gen_dump_kw(rng):
+    kw = {}
+    if rng.random() < 0.6:
+        kw["format"] = rng.choice(["parser_mode", "yaml", "json", "json_indented"])
+    for flag in ("skip_none", "skip_default", "skip_validation", "yaml_comments", "skip_link_targets"):
+        if rng.random() < 0.3:
+            kw[flag] = rng.random() < 0.5
+    return kw
+
+
+def gen_wide_op(rng, kind):
+    P = POOL[kind]
+    if rng.random() < 0.55:
+        # one of the 22 kinds of the model's alphabet, with keywords
+        op = dict(gen_op(rng, kind))
+        o = op["op"]
+        if o in ("parse_args", "parse_object", "parse_string", "parse_path"):
+            op["pkw"] = rng.choice(PA_KW)
+        elif o == "parse_env":
+            op["pkw"] = rng.choice(PE_KW)
+        elif o == "get_defaults":
+            op["pkw"] = rng.choice(GD_KW)
+        elif o == "dump":
+            op["kw"] = gen_dump_kw(rng)
+        elif o == "validate":
+            op["pkw"] = rng.choice(VAL_KW[kind])
+        elif o == "instantiate":
+            op["pkw"] = rng.choice(INST_KW)
+        op["kind"] = "w:" + op.get("kind", o)
+    else:
+        k = rng.choice(WIDE_EXTRA)
+        if k == "defaults_file" and kind not in DEFAULTS_FILE:
+            k = "get_default"
+        srcs = P["obj_ok"]
+        if k == "parse_known_args":
+            argv = rng.choice(P["root_ok"] + P["root_bad"]) + rng.choice(P["sub_ok"] + P["sub_bad"])
+            op = {"op": "parse_known_args", "argv": strip_marks(argv)}
+        elif k == "get_default":
+            op = {"op": "get_default", "dest": rng.choice(DEST[kind])}
+        elif k == "get_defaults":
+            op = {"op": "get_defaults", "pkw": rng.choice(GD_KW)}
+        elif k == "dump_any":
+            op = {"op": "dump", "src": rng.choice(srcs), "kw": gen_dump_kw(rng)}
+            if rng.random() < 0.25:
+                op["edit"] = rng.choice(P["bad_edit"])
+        elif k == "save":
+            op = {"op": "save", "src": rng.choice(srcs), "kw": rng.choice(SAVE_KW)}
+            if rng.random() < 0.2:
+                op["edit"] = rng.choice(P["bad_edit"])
+        elif k == "strip_unknown":
+            op = {"op": "strip_unknown", "src": rng.choice(srcs), "edit": rng.choice(UNKNOWN_EDIT)}
+        elif k == "merge_config":
+            op = {"op": "merge_config", "src": rng.choice(srcs), "src2": rng.choice(srcs)}
+        elif k == "print_help":
+            op = {"op": "print_help"}
+        elif k == "defaults_file":
+            op = {"op": "defaults_file", "content": rng.choice(DEFAULTS_CONTENT[kind])}
+        elif k == "validate_kw":
+            op = {"op": "validate", "src": rng.choice(srcs), "pkw": rng.choice(VAL_KW[kind])}
+            if rng.random() < 0.4:
+                op["edit"] = rng.choice(P["bad_edit"])
+        elif k == "instantiate_kw":
+            op = {"op": "instantiate", "src": rng.choice(srcs + P["inst_extra"]), "pkw": rng.choice(INST_KW)}
+            if rng.random() < 0.3:
+                op["edit"] = rng.choice(P["bad_edit"])
+        else:
+            op = {"op": "parse_env", "env": rng.choice(P["env_ok"] + P["env_bad"]), "pkw": rng.choice(PE_KW)}
+        op["kind"] = "w:" + k
+    if op["op"] not in ("defaults_file",):
+        environ = rng.choice(ENVIRON_W[kind])
+        if environ:
+            op["environ"] = environ
+        else:
+            op.pop("environ", None)
+    return op
+
+
+def gen_wide_history(rng, kinds):
+    n = rng.randint(3, 16)
+    return [(pi, gen_wide_op(rng, kinds[pi])) for pi in (rng.randrange(len(kinds)) for _ in range(n))]
+
+
+_GLOBAL_OK = {"_loaders_dumpers.yaml_default_loader": "memo of a constant (the loader class, built once)",
+              "_loaders_dumpers.yaml_default_dumper": "memo of a constant (the dumper class, built once)"}
+
+
+def _gsig(v, depth=0):
+    import types
+
+    if v is None or isinstance(v, (bool, int, float, str, bytes)):
+        return repr(v)[:120]
+    if hasattr(v, "cache_info") and callable(getattr(v, "cache_info", None)):
+        try:
+            return "lru:%d" % v.cache_info().currsize
+        except Exception:  # noqa: BLE001
+            return "lru:?"
+    if isinstance(v, (types.ModuleType, types.FunctionType, types.BuiltinFunctionType, contextvars.ContextVar)):
+        return "<%s>" % type(v).__name__
+    if isinstance(v, type):
+        if depth or not getattr(v, "__module__", "").startswith("jsonargparse"):
+            return "<type %s>" % v.__name__
+        # class-level attributes (a cache kept on a class is process-wide state)
+        return {"type": v.__name__, "attrs": {k: _gsig(x, depth + 1) for k, x in sorted(vars(v).items())
+                                               if not k.startswith("__") and not callable(x) and not isinstance(x, (property, classmethod, staticmethod))}}
+    if isinstance(v, dict):
+        if depth >= 2:
+            return "dict:%d" % len(v)
+        return {"dict": sorted((repr(k)[:80], json.dumps(_gsig(x, depth + 1), sort_keys=True, default=str)) for k, x in v.items())}
+    if isinstance(v, (list, tuple, set, frozenset)):
+        if depth >= 2:
+            return "%s:%d" % (type(v).__name__, len(v))
+        items = [json.dumps(_gsig(x, depth + 1), sort_keys=True, default=str) for x in v]
+        return {type(v).__name__: sorted(items) if isinstance(v, (set, frozenset)) else items}
+    return "<%s>" % type(v).__name__
+
+
+def process_sig():
+    """state of the process outside parser objects and context variables: module-level names of every jsonargparse module
+    (values shallowly, containers by content, lru caches by size, class-level attributes), working directory,
+    argparse.Namespace, sys.argv"""
+    import argparse
+    import importlib
+    import pkgutil
+
+    import jsonargparse
+
+    mods = _ENV.get("mods")
+    if mods is None:
+        mods = {}
+        for mi in pkgutil.iter_modules(jsonargparse.__path__):
+            try:
+                mods[mi.name] = importlib.import_module("jsonargparse." + mi.name)
+            except Exception:  # noqa: BLE001 - optional dependency missing
+                continue
+        _ENV["mods"] = mods
+    out = {"cwd": os.getcwd(), "argparse.Namespace": argparse.Namespace.__module__ + "." + argparse.Namespace.__qualname__, "sys.argv": list(sys.argv)}
+    for mn, m in sorted(mods.items()):
+        for k, v in sorted(vars(m).items()):
+            if k.startswith("__") or (mn + "." + k) in _GLOBAL_OK:
+                continue
+            if isinstance(v, type) and getattr(v, "__module__", None) != m.__name__:
+                continue   # an imported class: listed under its own module
+            out[mn + "." + k] = _gsig(v)
+    return out
+
+
+class Pristine:
+    """answers of a fresh PROCESS: a server forked from the harness before any parser was asked anything; every request
+    is answered by a child forked from that server (so no request sees what an earlier one left in module globals, class
+    attributes, caches, context variables) and the child exits.  The file system (default config file) and the request
+    (operation, environment) are the only inputs."""
+
+    def __init__(self):
+        import struct
+
+        self.struct = struct
+        req_r, req_w = os.pipe()
+        ans_r, ans_w = os.pipe()
+        pid = os.fork()
+        if pid == 0:
+            os.close(req_w)
+            os.close(ans_r)
+            try:
+                self._serve(req_r, ans_w)
+            finally:
+                os._exit(0)
+        os.close(req_r)
+        os.close(ans_w)
+        self.pid, self.req_w, self.ans_r = pid, req_w, ans_r
+        atexit.register(self.close)
+
+    def _read(self, fd):
+        head = b""
+        while len(head) < 4:
+            chunk = os.read(fd, 4 - len(head))
+            if not chunk:
+                return None
+            head += chunk
+        n = self.struct.unpack("<I", head)[0]
+        buf = b""
+        while len(buf) < n:
+            chunk = os.read(fd, n - len(buf))
+            if not chunk:
+                return None
+            buf += chunk
+        return json.loads(buf.decode())
+
+    def _write(self, fd, obj):
+        data = json.dumps(obj).encode()
+        data = self.struct.pack("<I", len(data)) + data
+        while data:
+            data = data[os.write(fd, data):]
+
+    def _serve(self, req_r, ans_w):
+        while True:
+            req = self._read(req_r)
+            if req is None:
+                return
+            pid = os.fork()
+            if pid == 0:
+                try:
+                    try:
+                        import base64
+                        import pickle
+
+                        cfgs = [pickle.loads(base64.b64decode(c)) if c else None for c in req["cfgs"]]
+                        ans = contextvars.Context().run(lambda: run_op_cfg(build_parser(req["kind"]), req["kind"], req["op"], cfgs[0], cfgs[1]))
+                    except BaseException as ex:  # noqa: BLE001
+                        ans = {"k": "machinery", "t": repr(ex)[:300]}
+                    self._write(ans_w, ans)
+                finally:
+                    os._exit(0)
+            os.waitpid(pid, 0)
+
+    def ask(self, kind, op):
+        import base64
+        import pickle
+
+        # configurations handed to dump/validate/...: made here (canonical environment), so that the child does nothing but the operation
+        cfgs = [None, None]
+        if op["op"] in ("dump", "validate", "instantiate", "save", "strip_unknown", "merge_config"):
+            cfgs[0] = apply_edit(HELPER.cfg(kind, subst(op["src"])), subst(op.get("edit")))
+        if op["op"] == "merge_config":
+            cfgs[1] = HELPER.cfg(kind, subst(op["src2"]))
+        self._write(self.req_w, {"kind": kind, "op": op, "cfgs": [base64.b64encode(pickle.dumps(c)).decode() if c is not None else None for c in cfgs]})
+        ans = self._read(self.ans_r)
+        if ans is None or ans.get("k") == "machinery":
+            raise MachineryError("pristine-process oracle failed: %s" % (ans,))
+        return ans
+
+    def close(self):
+        if self.req_w is not None:
+            with contextlib.suppress(OSError):
+                os.close(self.req_w)
+            self.req_w = None
+            with contextlib.suppress(OSError, ChildProcessError):
+                os.waitpid(self.pid, 0)
+
+
+def in_thread(fn):
+    import threading
+
+    box = {}
+
+    def target():
+        try:
+            box["r"] = fn()
+        except BaseException as ex:  # noqa: BLE001 - handed to the caller
+            box["e"] = ex
+    t = threading.Thread(target=target)
+    t.start()
+    t.join()
+    if "e" in box:
+        raise box["e"]
+    return box["r"]
+
+
+class WideSession:
+    def __init__(self, kinds, mode, pristine=True):
+        self.kinds = list(kinds)
+        self.mode = mode
+        self.pristine = pristine   # reference answers from a fresh process (slower: cold caches) or from a fresh parser in a fresh context
+
+    def run(self, hist, probes=True):
+        """per step: reused / fresh (fresh parser, fresh context) / dirty (fresh parser, the context the history left) answers
+        and the probes"""
+        def call(fn):
+            if self.mode == "ctx":
+                return contextvars.Context().run(fn)
+            if self.mode == "thread":
+                return in_thread(fn)
+            return fn()
+
+        def body():
+            parsers = [build_parser(k) for k in self.kinds]
+            base = [base_sig(k) for k in self.kinds]
+            proc_start = process_sig() if probes else None   # what THIS history changes (earlier sessions are reported on their own)
+            steps = []
+            for n, (pi, op) in enumerate(hist):
+                kind = self.kinds[pi]
+                if op["op"] == "defaults_file":
+                    write_defaults_file(kind, op["content"])
+                # the reference answer: a fresh parser in a fresh PROCESS (module globals, caches, class attributes pristine too)
+                fresh = _ENV["pristine"].ask(kind, op) if (self.pristine and _ENV.get("pristine")) else json.loads(json.dumps(run_fresh(kind, op)))
+                reused = call(lambda: run_op(parsers[pi], kind, op))
+                step = {"reused": json.loads(json.dumps(reused)), "fresh": fresh}
+                if self.mode == "same":
+                    step["dirty"] = json.loads(json.dumps(run_op(build_parser(kind), kind, op)))
+                if probes:
+                    st = probe(parsers, self.kinds)
+                    step["dirty_ctx"] = st["dirty_ctx"] + (["lenient_check"] if st["lenient"] else []) + (["parent_parser"] if st["parent"] else [])
+                    step["pending"] = [i for i, p_ in enumerate(st["parsers"]) if p_["pending"] is not None]
+                    step["dc"] = [i for i, p_ in enumerate(st["parsers"]) if p_["dc"]]
+                    step["linked"] = [i for i, p_ in enumerate(st["parsers"]) if p_["linked"] != _ENV["linked0"][self.kinds[i]]]
+                    if n == len(hist) - 1 or n % 4 == 3:
+                        # (what is left on objects / in module globals stays there: looked at every fourth step and at the end)
+                        step["sigdiff"] = [d for i in range(len(parsers)) for d in sig_diff(base[i], graph_sig(parsers[i]), "p%d" % i)]
+                        step["procdiff"] = sig_diff(proc_start, process_sig(), "process")
+                steps.append(step)
+            return steps
+        try:
+            return contextvars.Context().run(body)
+        finally:
+            for k, c in DEFAULTS_FILE_ORIG.items():
+                write_defaults_file(k, c)
+
+
+def wide_diff(steps):
+    for i, s in enumerate(steps):
+        if not same_obs(s["reused"], s["fresh"]):
+            return i, "reused"
+        if "dirty" in s and not same_obs(s["dirty"], s["fresh"]):
+            return i, "dirty"
+    return None
+
+
+def wide_bad(kinds, mode, hist, pristine=True):
+    return wide_diff(WideSession(kinds, mode, pristine).run(hist, probes=False)) is not None
+
+
+def report_wide(ctx, kinds, mode, hist, steps, pristine=True):
+    ctx.count(len(hist))
+    hj = [[pi, strip_op(op)] for pi, op in hist]
+    if len(hist) >= 2:
+        ctx.nontrivial(jd([mode, hj]))
+    d = wide_diff(steps)
+    if d is not None:
+        i, which = d
+        small = shrink_history(kinds, hist[: i + 1], lambda h: wide_bad(kinds, mode, h, pristine))
+        s2 = WideSession(kinds, mode, pristine).run(small, probes=False)
+        j = wide_diff(s2)
+        src = s2[j[0]] if j is not None else steps[i]
+        what = ("the answer of an operation on a reused parser (%s) differs from its answer on a fresh parser (after %d earlier operation(s))" % (
+            {"same": "same context", "ctx": "fresh context per call", "thread": "new thread per call"}[mode], len(small) - 1)) if which == "reused" else \
+            "the answer of an operation on a FRESH parser differs when asked in the context left by %d earlier operation(s) on other parsers" % (len(small) - 1)
+        ctx.violation(what, {"kind": "wide", "origin": "generated-wide", "mode": mode, "pristine": pristine, "parsers": kinds, "history": [[pi, strip_op(op)] for pi, op in small],
+                             "reused": src["reused"], "fresh": src["fresh"], "dirty": src.get("dirty")})
+        return True
+    for n, s in enumerate(steps):
+        where = jd({"mode": mode, "parsers": kinds, "history": hj[: n + 1]})[:1800]
+        if s.get("dirty_ctx"):
+            ctx.tie_break("context variable(s) not restored after an operation: %s" % s["dirty_ctx"], where)
+            return True
+        if s.get("pending") or s.get("dc") or s.get("linked"):
+            ctx.tie_break("a carrier that every operation restores is not restored (pending print_config %s, sub_add_kwargs default %s, linked_targets %s)"
+                          % (s.get("pending"), s.get("dc"), s.get("linked")), where)
+            return True
+        if s.get("sigdiff"):
+            ctx.tie_break("persistent state the model does not know: attribute(s) of the reused parser differ from a fresh one: %s" % s["sigdiff"][:6], where)
+            return True
+        if s.get("procdiff"):
+            ctx.tie_break("process-level state the model does not know changed (module globals / class attributes / lru caches / cwd / argparse.Namespace): %s"
+                          % s["procdiff"][:6], where)
+            return True
+    return False
+
+
 # ------------------------------------------------------------------ the check
 def run_batch(ctx: Ctx, batch, origin):
     """batch: [(kinds, hist)] — model answers are fetched in one driver call"""
@@ -1140,22 +1610,32 @@ def setup_env():
     for k in ("A", "B"):
         st = contextvars.Context().run(lambda k=k: probe([build_parser(k)], [k]))
         _ENV["linked0"][k] = st["parsers"][0]["linked"]
+    # baseline of the process-level state: everything imported, nothing asked of any parser yet
+    if "proc0" not in _ENV:
+        _ENV["proc0"] = process_sig()
+    if "pristine" not in _ENV:
+        _ENV["pristine"] = Pristine()
 
 
 def run(ctx: Ctx):
     setup_env()
-    ctx.rule = ("histories of 2-12 operations from 22 kinds (parse_args ok / failing / --help / --print_config[=flags] / failing with --print_config / "
+    ctx.rule = ("(a) histories of 2-12 operations from 22 kinds (parse_args ok / failing / --help / --print_config[=flags] / failing with --print_config / "
                 "--x.help Class; parse_object, parse_string, parse_path, parse_env ok and failing; get_defaults; dump ok/failing; validate ok/failing; "
                 "instantiate_classes ok/failing; format_help) on one reused real parser (kind A: sub-commands, subclass argument, class group with dataclass "
                 "parameter, parse link, instantiate link, config files, default_env; kind B: default_config_files, exit_on_error) and on two parsers "
                 "interleaved; every step: reused vs fresh-in-fresh-context (answer), real vs Lean model (outcome class + every carrier), object graph vs "
                 "fresh; non-trivial = history in which at least one carrier of the reused parser differs from a fresh parser's at some step; distinct by "
-                "canonical JSON of the history")
+                "canonical JSON of the history; (b) wide histories of 3-16 operations: the 22 kinds with every keyword (env, defaults, with_meta, "
+                "skip_validation, all dump flags, validate/instantiate keywords) plus parse_known_args, get_default, save, strip_unknown, merge_config, "
+                "print_help, changes of os.environ and of the default config file's content; parser reused in the same context / a fresh "
+                "contextvars.Context per call / a new thread per call; reference = fresh parser in a fresh context or (35%) in a fresh process; "
+                "also a fresh parser asked in the context the history left; non-trivial = every wide history of at least 2 operations")
     ctx.assumptions = [
         "argv elements are classified into the model's token kinds by the harness (tables CLS_OPTS/DC_OPTS, marks in the pools); whether a non-argv "
         "input or a configuration is acceptable is taken from the fresh parser's answer (the model does not model value validity)",
         "a fresh contextvars.Context stands for a fresh process as far as context variables go; module-level caches of argparse/PyYAML/inspect are shared",
         "usage text on stderr and the --print_shtab entry of help texts are outside the observable (DESIGN, C09)",
+        "the fresh-process reference is a child forked from a server that was forked from the harness before any parser was asked anything",
     ]
     ctx.lean_build(extractors=["pstate"])
 
@@ -1198,6 +1678,36 @@ def run(ctx: Ctx):
             break
     for kinds, hist in rnd[:3]:
         ctx.sample({"parsers": kinds, "history": [[pi, strip_op(op)] for pi, op in hist]})
+
+    # wide histories: every keyword of every method, more methods, changing environment, three ways of reusing a parser
+    pd = sig_diff(_ENV["proc0"], process_sig(), "process")
+    if pd:
+        ctx.tie_break("process-level state the model does not know changed during the histories above (module globals / class attributes / lru "
+                      "caches / cwd / argparse.Namespace): %s" % pd[:6], "baseline: everything imported, no parser asked anything")
+    n_wide = ctx.budget(70, 600) * (2 if boost > 1 else 1)
+    n_rep = 0
+    for i in range(n_wide):
+        r = ctx.rng.random()
+        kinds = ["A"] if r < 0.35 else ["B"] if r < 0.7 else ["A", "B"] if r < 0.85 else ["B", "B"] if r < 0.93 else ["A", "A"]
+        mode = ctx.rng.choice(MODES)
+        hist = gen_wide_history(ctx.rng, kinds)
+        pristine = ctx.rng.random() < 0.35
+        ctx.hist("wide.reference", "fresh process" if pristine else "fresh parser, fresh context")
+        ctx.hist("wide.mode", mode)
+        ctx.hist("wide.parsers", "+".join(kinds))
+        ctx.hist("wide.length", len(hist))
+        for _, op in hist:
+            ctx.hist("wide.ops", op.get("kind", op["op"]))
+            for kw in sorted(set(op.get("pkw", {})) | set(op.get("kw", {}))):
+                ctx.hist("wide.keywords", "%s(%s)" % (op["op"], kw))
+        steps = WideSession(kinds, mode, pristine).run(hist)
+        if report_wide(ctx, kinds, mode, hist, steps, pristine):
+            n_rep += 1
+            if n_rep >= 5:
+                break
+        if i < 2:
+            ctx.sample({"mode": mode, "parsers": kinds, "history": [[pi, strip_op(op)] for pi, op in hist]})
+    ctx.extra["wide_histories"] = n_wide
     ctx.extra["histories"] = len(allb) + n_corpus
     ctx.extra["nontrivial_rule_note"] = "measured from the probe: a carrier of the reused parser (args, shtab, context variables) is set at some step"
     ctx.replay_fixed_demos()
@@ -1224,6 +1734,18 @@ def replay(ctx: Ctx, body):
         return 1
     kinds = r["parsers"]
     hist = [(pi, op) for pi, op in r["history"]]
+    if r.get("kind") == "wide":
+        steps = WideSession(kinds, r.get("mode", "same"), r.get("pristine", True)).run(hist, probes=False)
+        bad = 0
+        for (pi, op), s in zip(hist, steps):
+            print("parser %d (%s) %s" % (pi, kinds[pi], jd(strip_op(op))[:200]))
+            print("    reused:", jd(s["reused"])[:400])
+            if not same_obs(s["reused"], s["fresh"]) or ("dirty" in s and not same_obs(s["dirty"], s["fresh"])):
+                print("    fresh :", jd(s["fresh"])[:400])
+                if "dirty" in s:
+                    print("    fresh parser, same context:", jd(s["dirty"])[:400])
+                bad = 1
+        return bad
     steps, _ = Session(kinds).run(hist, with_state=False)
     bad = 0
     for (pi, op), s in zip(hist, steps):
